@@ -106,7 +106,11 @@ RANK_NAMES = ["M", "K", "N", "P", "Q"]
 # reassign: after the tensor is built, every other interior child (at any level) is replaced, through item
 # assignment, by a freshly built unowned fiber with the same literal: the old sub-tree must leave the
 # rank lists and the new one enter them (Fiber._disownPayload / _registerPayload), the tree is the same.
-MODE = {"vkind": "int", "touch": False, "late_default": False, "reassign": False}
+# none_default (set by a module for cases whose default is the sentinel NONE_D): the implementation is
+# handed None wherever the case says NONE_D and a None coming back is read as NONE_D.  default=None is
+# the documented "no empty value"; a default that no payload ever equals behaves the same in the models.
+NONE_D = -999983
+MODE = {"vkind": "int", "touch": False, "late_default": False, "reassign": False, "none_default": False}
 
 
 class SubInt(int):
@@ -116,8 +120,9 @@ class SubInt(int):
 def set_mode(mod, case):
     import hashlib, json
     if not getattr(mod, "REPR_MODES", True):
-        MODE.update(vkind="int", touch=False, late_default=False, reassign=False)
+        MODE.update(vkind="int", touch=False, late_default=False, reassign=False, none_default=False)
         return
+    MODE["none_default"] = False
     h = int(hashlib.sha1(json.dumps(case, sort_keys=True).encode()).hexdigest()[:8], 16)
     kinds = getattr(mod, "VKINDS", ["int", "int", "float", "sub"])
     MODE["vkind"] = kinds[h % len(kinds)]
@@ -129,6 +134,8 @@ def set_mode(mod, case):
 def dress(v):
     if isinstance(v, bool) or not isinstance(v, int):
         return v
+    if MODE["none_default"] and v == NONE_D:
+        return None
     k = MODE["vkind"]
     if k == "tiny":
         # opt-in (VKINDS): v * 2^-40, exact in binary floating point - a non-default value within 1e-9 of
@@ -143,6 +150,8 @@ TINY = 2.0 ** -40
 def undress(p):
     if isinstance(p, bool):
         return p
+    if p is None and MODE["none_default"]:
+        return NONE_D
     if MODE["vkind"] == "tiny" and isinstance(p, float) and p == p and abs(p) != float("inf"):
         q = p / TINY
         return int(q) if q == int(q) else p
@@ -213,7 +222,7 @@ def build_tensor(t, depth, shapes=None, d=0, rank_ids=None, name=None):
     if shapes is not None:
         kw["shape"] = list(shapes)
     T = Tensor.fromFiber(rank_ids=rank_ids, fiber=root, **kw)
-    if MODE["touch"] and MODE["vkind"] == "float" and isinstance(d, int):
+    if MODE["touch"] and MODE["vkind"] == "float" and isinstance(d, int) and dress(d) is not None:
         # the leaf default is replaced once after having been read: nothing of the first one may survive
         T.setDefault(float(d) + 0.5)
         for q in (lambda: T.getDefault(), lambda: T.ranks[-1].getDefault(), lambda: T.ranks[-1].getAttrs().getDefault()):
@@ -223,7 +232,7 @@ def build_tensor(t, depth, shapes=None, d=0, rank_ids=None, name=None):
                 pass
         T.setDefault(float(d))
     elif d is None or d != 0:
-        T.setDefault(dress(d))
+        T.setDefault(dress(d) if d is not None else None)
     if name is not None:
         T.setName(name)
     if MODE["reassign"]:
